@@ -220,6 +220,8 @@ def run(rep):
                 rep.undecided("R02.b", file, name, f"{name}: extraction", fw[2] or jc[2], line=line)
             continue
         c01.branch_agreement(rep, "R02.a", name, file, "_forward", fw[0], "_jacobian", jc[0], line)
+        for m_ in ("_forward", "_jacobian"):
+            c01.shortcut_agreement(rep, "R02.a", name, file, m_, table[name][m_][0], table[name].get("shortcuts:" + m_, []), line)
         for c in fw[0]:
             partner = [y for y in jc[0] if c01.same_case(c, y)]
             if len(partner) != 1:
